@@ -28,22 +28,28 @@ def classify(exp, got):
     return "len", "", ""
 
 
-def n_ops(case):
-    return sum(1 for t in case.split() if t in ("I", "B", "Q", "R", "T", "N"))
+OPS_H = ("I", "B", "Q", "R", "T", "N", "V", "J")     # STRtree histories (lines H / HX)
+OPS_N = ("I", "R", "Q", "V", "A", "S")               # quadtree histories (lines N)
 
 
 def parse_ops(case):
     tk = case.split()
-    head, rest = tk[:3], tk[3:]
+    nh, opset = (2, OPS_N) if tk[0] == "N" else (3, OPS_H)
+    head, rest = tk[:nh], tk[nh:]
     ops, cur = [], []
     for t in rest:
-        if t in ("I", "B", "Q", "R", "T", "N") and cur:
+        if t in opset and cur:
             ops.append(cur)
             cur = []
         cur.append(t)
     if cur:
         ops.append(cur)
     return head, ops
+
+
+def driver_stream_of(case):
+    k = case.split(" ", 1)[0]
+    return {"E": "strslices", "K": "strslices", "S": "strslices", "N": "otheridx", "X": "otheridx"}.get(k, "strtree")
 
 
 def disagrees(exe, case):
@@ -53,9 +59,23 @@ def disagrees(exe, case):
         f.write(case + "\n")
     rc, out = verif.sh([exe, "replay", p], timeout=60)
     impl = out.strip().split("\n")[-1] if out.strip() else ""
-    rc2, lines = verif.run_driver_lines("strslices" if case.startswith("E ") else "strtree", [case])
+    rc2, lines = verif.run_driver_lines(driver_stream_of(case), [case])
     model = lines[0] if lines else ""
     return (rc != 0 or impl != model), impl, model
+
+
+def crashing_case(exe, stream, seed, n, shards):
+    """the harness died on this stream: re-run its shards one by one with C15_ECHO=1 (every case line is printed to stderr
+    before it is executed); the last line echoed by the shard that dies is the failing input"""
+    for k in range(shards):
+        base = os.path.join(verif.BUILD, "work", "c15-crash-%d" % os.getpid())
+        os.makedirs(os.path.dirname(base), exist_ok=True)
+        env = dict(os.environ, C15_ECHO="1")
+        rc, out = verif.sh([exe, stream, str(seed * 1000003 + k), str(max(1, n // shards)), base], timeout=600, env=env)
+        if rc != 0:
+            lines = [l for l in out.split("\n") if l[:2] in ("H ", "HX", "K ", "N ") or l == "K"]
+            return (lines[-1] if lines else None), rc
+    return None, 0
 
 
 def shrink(exe, case):
@@ -80,7 +100,20 @@ def signature(case, impl, model):
     head, ops = parse_ops(case)
     n_ins = sum(1 for o in ops if o[0] == "I")
     had_remove = any(o[0] == "R" for o in ops)
-    return {"stream": "strtree", "op": kind, "single_item": n_ins == 1, "after_remove": had_remove}
+    if head[0] == "N":
+        return {"stream": "quadnode", "api": "Quadtree" if head[1] == "f" else "Root", "op": kind, "after_remove": had_remove}
+    return {"stream": "strtree" if head[0] == "H" else "strcxx", "op": kind, "single_item": n_ins == 1, "after_remove": had_remove}
+
+
+def iter_signature(case):
+    """striter: the longest run of removed leaves adjacent in storage order, and whether every leaf is removed"""
+    run = best = 0
+    leaves = case.split()[1:]
+    for t in leaves:
+        run = run + 1 if t.endswith("*") else 0
+        best = max(best, run)
+    return {"stream": "striter", "removed_run": "0" if best == 0 else "1" if best == 1 else ">=2",
+            "all_removed": bool(leaves) and all(t.endswith("*") for t in leaves)}
 
 
 def run(ctx):
@@ -102,15 +135,18 @@ def run(ctx):
         ctx.violation("harness c15 does not compile against the current tree", {"kind": "tie-broken", "correspondence": "harness/c15.cpp", "log": out[-3000:]}, nofail=True)
         return
     quick = ctx.tier == "quick"
-    n_hist = 3000 if quick else 1500000
+    n_hist = 6000 if quick else 1500000
     n_sl = 20000 if quick else 4000000
     corr = {}
     found_input = False
-    for stream, n in (("strtree", n_hist), ("strslices", n_sl), ("envpreds", 40000 if quick else 4000000),
-                      ("otheridx", 20000 if quick else 6000000)):
-        # envpreds: the driver answers `E …` lines in its `strslices` handler (geosdrv's stream table is shared)
-        r = verif.run_stream(exe, stream, ctx.seed, n, ctx.work, shards=min(verif.NPROC, 8),
-                             driver_stream="strslices" if stream == "envpreds" else None)
+    # geosdrv's stream table is shared and fixed: the driver answers `E …` and `K …` lines in its `strslices` handler, `HX …` lines
+    # in `strtree`, `N …` lines in `otheridx`
+    dstream = {"envpreds": "strslices", "striter": "strslices", "strcxx": "strtree", "quadnode": "otheridx"}
+    for stream, n in (("strtree", n_hist), ("strcxx", n_hist), ("striter", 16000 if quick else 2000000), ("strslices", n_sl),
+                      ("envpreds", 40000 if quick else 4000000), ("otheridx", 20000 if quick else 6000000),
+                      ("quadnode", 12000 if quick else 1500000)):
+        shards = min(verif.NPROC, 8)
+        r = verif.run_stream(exe, stream, ctx.seed, n, ctx.work, shards=shards, driver_stream=dstream.get(stream))
         corr[stream] = {"cases": r["cases"], "disagreements": len(r["disagreements"]) + r.get("more_disagreements", 0),
                         "distribution": r["stats"]}
         ctx.cov["samples"] += r.get("samples", [])[:2]
@@ -118,9 +154,14 @@ def run(ctx):
             if "harness exit -" in r["error"] or "harness exit 1" in r["error"]:
                 # the harness (i.e. the library under it) crashed: the failing input is the one this seed generates
                 found_input = True
-                ctx.violation("index code crashed while running stream %s (seed %d): %s" % (stream, ctx.seed, r["error"][:300]),
-                              {"kind": "failing-input", "stream": stream, "seed": ctx.seed, "n": n,
-                               "replay_cmd": "%s %s <seed*1000003+shard> %d /tmp/out" % (exe, stream, n // 8), "detail": r["error"][-1500:]},
+                case, crc = (None, 0)
+                if stream in ("strtree", "strcxx", "striter", "quadnode"):
+                    case, crc = crashing_case(exe, stream, ctx.seed, n, shards)
+                ctx.violation("index code crashed while running stream %s (seed %d): %s%s" % (stream, ctx.seed, r["error"][:300],
+                                                                                           ("  failing input: " + case[:400]) if case else ""),
+                              {"kind": "failing-input", "stream": stream, "seed": ctx.seed, "n": n, "case": case,
+                               "replay_cmd": ("%s replay <file with case line>" % exe) if case else
+                                             "%s %s <seed*1000003+shard> %d /tmp/out" % (exe, stream, n // 8), "detail": r["error"][-1500:]},
                               signature={"stream": stream, "op": "crash"})
             else:
                 ctx.violation("correspondence stream %s could not run: %s" % (stream, r["error"]),
@@ -128,7 +169,17 @@ def run(ctx):
             continue
         seen_sigs = []
         for idx, case, exp, got in r["disagreements"]:
-            if stream == "strtree":
+            if stream == "striter":
+                sig = iter_signature(case)
+                if sig in seen_sigs:
+                    continue
+                seen_sigs.append(sig)
+                found_input = True
+                ctx.violation("TemplateSTRtree::items(): the iterator does not visit exactly the live leaves of the leaf array "
+                              "(`id*` = removed, storage order): %s  visited: %s  live: %s" % (case[:300], exp[:200], got[:200]),
+                              {"kind": "failing-input", "stream": stream, "case": case, "impl": exp, "spec": got, "signature": sig,
+                               "replay_cmd": "%s replay <file with case line>" % exe}, signature=sig)
+            elif stream in ("strtree", "strcxx", "quadnode"):
                 sig0 = signature(case, exp, got)
                 if sig0 in seen_sigs:
                     continue
@@ -139,7 +190,9 @@ def run(ctx):
                 seen_sigs.append(sig)
                 seen_sigs.append(sig0)
                 found_input = True
-                ctx.violation("STRtree history: implementation output differs from the live-multiset specification (%s)" % json.dumps(sig),
+                what = ("quadtree history: implementation output differs from the model of quadtree::Root / Quadtree"
+                        if stream == "quadnode" else "STRtree history: implementation output differs from the live-multiset specification")
+                ctx.violation("%s (%s)" % (what, json.dumps(sig)),
                               {"kind": "failing-input", "stream": stream, "case": c2, "impl": impl, "spec": model,
                                "replay_cmd": "%s replay <file with case line>" % exe, "signature": sig}, signature=sig)
             elif stream == "envpreds":
@@ -160,7 +213,8 @@ def run(ctx):
                                "replay_cmd": "%s replay <file with case line>" % exe}, signature=sig)
             elif stream == "otheridx":
                 kind = case.split()[1] if len(case.split()) > 1 else "?"
-                sig = {"stream": "otheridx", "index": kind, "what": got.split()[2] if len(got.split()) > 2 else got}
+                gt = got.split()
+                sig = {"stream": "otheridx", "index": kind, "what": "remove" if gt[1:2] == ["remove"] else gt[2] if len(gt) > 2 else got}
                 if sig in seen_sigs:
                     continue
                 seen_sigs.append(sig)
